@@ -61,11 +61,14 @@ def call(H, fn, *args, **kw):
 
 
 def fields_of(H, h):
-    if isinstance(h, H.OFXHeaderV1):
-        return ("v1", h.ofxheader, h.data, h.version, h.security, h.encoding, h.charset, h.compression, h.oldfileuid, h.newfileuid)
-    if isinstance(h, H.OFXHeaderV2):
-        return ("v2", h.ofxheader, h.version, h.security, h.oldfileuid, h.newfileuid)
-    raise TypeError("not a header: %r" % (h,))
+    try:
+        if isinstance(h, H.OFXHeaderV1):
+            return ("v1", h.ofxheader, h.data, h.version, h.security, h.encoding, h.charset, h.compression, h.oldfileuid, h.newfileuid)
+        if isinstance(h, H.OFXHeaderV2):
+            return ("v2", h.ofxheader, h.version, h.security, h.oldfileuid, h.newfileuid)
+    except Exception as e:           # a header object without (all of) its fields
+        return ("broken", type(h).__name__, type(e).__name__)
+    return ("not-a-header", type(h).__name__)
 
 
 def canon(H, out, shape):
@@ -73,11 +76,18 @@ def canon(H, out, shape):
     if out[0] != "ok":
         return out
     v = out[1]
-    if shape == "hdr+str":
-        return ("ok", fields_of(H, v), str(v))
-    if shape in ("hdr+end", "hdr+body"):
-        return ("ok", fields_of(H, v[0]), v[1])
-    return ("ok", v)
+    try:
+        if shape == "hdr+str":
+            f, t = fields_of(H, v), str(v)
+        elif shape in ("hdr+end", "hdr+body"):
+            f, t = fields_of(H, v[0]), v[1]
+        else:
+            return ("ok", v)
+    except Exception as e:          # str() of a header object without its fields (a constructor that swallowed an error)
+        return ("crash", "broken-header-object:" + type(e).__name__)
+    if f[0] not in ("v1", "v2"):
+        return ("crash", "broken-header-object")
+    return ("ok", f, t)
 
 
 # ------------------------------------------------------------------ Coq terms
@@ -182,7 +192,7 @@ def correspond(rep, H, cases, name, prop, kindf=None):
     for k in (0, len(kept) // 3, 2 * len(kept) // 3, len(kept) - 1):
         if kept:
             rep.sample({"case": jsonable(kept[k][0]), "implementation": jsonable(kept[k][1])})
-    bad = C.coq_bad_indices(prop, name, IMPORTS, "hcase_ok", "hcase", items, shard=600)
+    bad = C.coq_bad_indices(prop, name, IMPORTS, "hcase_ok", "hcase", items, shard=max(150, min(600, len(items) // 15 + 1)))
     for i in bad[:50]:
         rep.disagreements.append({"case": jsonable(kept[i][0]), "implementation": jsonable(kept[i][1])})
     return kept, bad
@@ -305,7 +315,11 @@ def run(rep, tier, rng):
                     fail("make_header:valid-arguments-refused", "make_header(%r, %r, %r, %r) -> %r" % (vv, sec, old, new, out), case, "ok")
                     continue
                 h = out[1]
-                text = str(h)
+                st = call(H, str, h)
+                if st[0] != "ok":
+                    fail("make_header:str-raises", "str(make_header(%r, %r, %r, %r)) raised %s" % (vv, sec, old, new, st[1]), case, "ok")
+                    continue
+                text = st[1]
                 want_kind = "v1" if v < 200 else "v2"
                 flat = text.startswith("OFXHEADER:100\r\nDATA:OFXSGML\r\nVERSION:%d\r\n" % v) and "<?" not in text
                 xmlk = text.startswith("<?xml ") and ("<?OFX OFXHEADER=\"200\" VERSION=\"%d\"" % v) in text
